@@ -130,6 +130,19 @@ def cr_roundtrip(case, ctx):
                          symmetric_upper=case["mode"] == "symm", **kw, **extra)
     sc = case.get("scale", 1)
     api = open_cooler(case["open"], uri, lambda c: project.api_view(c, cols, sc))
+    # the same attributes as `cooler info` prints them (metadata document, one field, the info dump)
+    from click.testing import CliRunner
+    from cooler.cli import cli
+
+    def info(*args):
+        res = CliRunner().invoke(cli, ["info", uri, *args])
+        if res.exit_code != 0:
+            raise res.exception if isinstance(res.exception, Exception) else RuntimeError(res.output[-200:])
+        return res.output
+    dump = json.loads(info())
+    api.update({"cli_meta": project.canon_json(json.loads(info("--metadata"))), "cli_nnz": int(info("-f", "nnz").strip()),
+                "cli_assembly": str(dump.get("genome-assembly", "MISSING")), "cli_mode": str(dump.get("storage-mode", "MISSING")),
+                "cli_nbins": int(dump.get("nbins", -1))})
     if sc != 1:
         # scale the stored value columns in place so that the raw projection is integral (the exactness is checked)
         import h5py
